@@ -273,7 +273,26 @@ def _run(sim, fe, case, r, tag=''):
                     sim.vl.call(sim.app.set_interest_filter, S.name_comps(c['prefix']), lambda n, p, a: None)
                 except ValueError:
                     pass
+    if case.get('tick'):
+        # the millisecond clock rolls over while a command is being put together (between two of the library's clock readings)
+        nticks = [0]
+
+        def tick():
+            nticks[0] += 1
+            if nticks[0] % 2 == 1:        # (every other command: the next one is then built within the same millisecond)
+                sim.vl.clock.t += 0.001
+        face.on_local_check = tick
     tasks = sim.vl.run(spawn_all())
+    cancelled = None
+    ci = case.get('cancel')
+    if ci is not None and len(script) >= 2 and script[0]['latency'] >= 1:
+        # a call that is still queued behind the first command (unanswered so far) is given up by its caller
+        sim.vl.settle()
+        cancelled = 1 + ci % (len(script) - 1)
+        if not script[cancelled].get('_seen') and not tasks[cancelled].done():
+            tasks[cancelled].cancel()
+        else:
+            cancelled = None
     for _ in range(60):
         if all(t.done() for t in tasks):
             break
@@ -284,6 +303,10 @@ def _run(sim, fe, case, r, tag=''):
     for i, c in enumerate(script):
         want = expected_result(fe, c['reply'], c['latency'])
         got = results.get(i)
+        if i == cancelled:
+            if c.get('_seen'):
+                r.bad(f'C17/{fe}/{c["op"]}/command-sent-for-cancelled-call', f'{c}')
+            continue
         if not c.get('_seen'):
             r.bad(f'C17/{fe}/{c["op"]}/no-command-sent', f'{c}')
             continue
@@ -291,7 +314,7 @@ def _run(sim, fe, case, r, tag=''):
             r.bad(f'C17/{fe}/{c["op"]}/raised/{c["reply"]}/{got[1]}', got[2])
         elif bool(got[1]) != want or not isinstance(got[1], bool):
             r.bad(f'C17/{fe}/{c["op"]}/result/{c["reply"]}/returned={got[1]!r}', f'expected {want} (latency {c["latency"]} ms)')
-    if state['n_cmd'] != len(script):
+    if state['n_cmd'] != len(script) - (1 if cancelled is not None else 0):
         r.bad(f'C17/{fe}/command-count', f'{state["n_cmd"]} commands for {len(script)} calls')
     if sim.receive_errors:
         r.bad(f'C17/{fe}/receive-raised/{sim.receive_errors[0].split(":")[0]}', sim.receive_errors[0])
@@ -327,6 +350,7 @@ def _call(fe):
 def _case(fe):
     return st.fixed_dictionaries({'frontend': st.just(fe), 'local': st.sampled_from([True, True, False]),
                                   'reconnect': st.sampled_from([False, False, True]),
+                                  'tick': st.sampled_from([False, False, True]), 'cancel': st.sampled_from([None, None, 0, 1, 2]),
                                   'calls': st.lists(_call(fe), min_size=1, max_size=6,
                                                     unique_by=lambda c: str(c['prefix']))})
 
@@ -347,8 +371,8 @@ def _grid(tier):
             yield {'frontend': fe, 'local': local, 'calls': [{'op': 'register', 'prefix': [[8, '6c']], 'reply': 'ok-body', 'latency': 0,
                                                                'with_func': False}]}
         for n in (2, 4, 6):
-            for rc in (False, True):
-                yield {'frontend': fe, 'reconnect': rc,
+            for rc in (False, True, 'tick'):
+                yield {'frontend': fe, 'reconnect': rc is True, 'tick': rc == 'tick',
                        'calls': [{'op': 'register', 'prefix': [[8, '70'], [8, bytes([0x30 + i]).hex()]], 'reply': 'ok-body',
                                   'latency': 0, 'with_func': False} for i in range(n)]}
 
